@@ -384,7 +384,7 @@ pub fn run(tier: Tier, seed: u64, replay: Option<Value>) -> i32 {
         let probe = j2cmd(c.get("cmd").unwrap_or(&Value::Null));
         let prefix: Vec<Cmd> = c.get("prefix").and_then(|p| p.as_array()).map(|a| a.iter().map(j2cmd).collect()).unwrap_or_default();
         let r = intrude(&mut sut, &prefix, &probe, c.get("one_write").and_then(|x| x.as_bool()).unwrap_or(false));
-        println!("replay: {:?}", r);
+        crate::outln!("replay: {:?}", r);
         return if r.is_ok() { 0 } else { 1 };
     }
     // the enumeration
